@@ -12,8 +12,8 @@ VIS = {"json": (JSON, "JSONValidator"), "cbor": (CBOR, "CBORValidator")}
 EPS = 2.220446049250313e-16
 
 CONFIGS = {
-    "default": lambda f: True,
-    "no-additional-controls": lambda f: f != "additional-controls",
+    "default": lambda f: f not in ("lsp", "_build-parser"),
+    "no-additional-controls": lambda f: f not in ("additional-controls", "lsp", "_build-parser"),
 }
 
 
@@ -470,3 +470,80 @@ def ctrl_restore_table(facts, which, cfgname="default"):
                     rows.append({"key": key, "ctrl_after": "None" if after == ("None",) else repr(after)[:60], "visits": len(visits),
                                  "line": fi.line, "file": fi.file})
     return rows
+
+
+# --------------------------------------------------------------------------
+# generic object-model runs of methods of one impl
+# --------------------------------------------------------------------------
+
+class ObjRun:
+    """interpret methods of `ty` in `file`; self-method / Self:: calls whose name is in `inline` are interpreted too,
+    names in `scripts` are scripted, everything else is opaque"""
+
+    def __init__(self, facts, file, ty, cfgname="default", inline=(), scripts=None):
+        self.facts = facts
+        self.file = file
+        self.ty = ty
+        self.cfg = cfg_fn(cfgname)
+        self.inline = set(inline)
+        self.scripts = scripts or {}
+        self.errors = 0
+        self.methods = {}
+        for fi in facts.fns(file):
+            if fi.impl_self == ty and not fi.in_test:
+                self.methods.setdefault(fi.name, []).append(fi)
+        self.depth = 0
+
+    def fn(self, name):
+        for fi in self.methods.get(name, []):
+            if all(self.cfg(c) for c in fi.cfg):
+                return fi
+        raise vf.Incomplete("%s::%s not found in %s" % (self.ty, name, self.file))
+
+    def call(self, name, self_obj, args):
+        fi = self.fn(name)
+        env = {}
+        pos = []
+        for inp in fi.node["sig"]["inputs"]:
+            if "self" in inp:
+                env["self"] = self_obj
+            elif inp["pat"]["k"] == "pid":
+                pos.append(inp["pat"]["n"])
+            else:
+                pos.append(None)
+        if isinstance(args, dict):
+            env.update(args)
+        else:
+            for n, a in zip(pos, args):
+                if n:
+                    env[n] = a
+        self.depth += 1
+        if self.depth > 30:
+            raise Unknown("call depth")
+        it = Interp(env=env, cfg=self.cfg, on_call=None)
+        it.on_call = lambda kind, nm, node, a, recv, it=it, so=self_obj: self.on_call(it, so, kind, nm, node, a, recv)
+        try:
+            return it.block(fi.node["body"])
+        except Return as r:
+            return r.v
+        finally:
+            self.depth -= 1
+
+    def on_call(self, it, self_obj, kind, name, node, args, recv):
+        if kind == "method":
+            if name == "add_error" and node["r"].get("s") == "self":
+                self.errors += 1
+                return ("tuple", [])
+            if name in self.scripts:
+                return self.scripts[name](self, it, node, recv)
+            if node["r"].get("s") == "self" and name in self.inline:
+                a = [it.eval(x) for x in node["a"]]
+                return self.call(name, self_obj, a)
+            return NotImplemented
+        if kind == "fn" and name:
+            base = name.split("::")[-1]
+            if name in self.scripts or base in self.scripts:
+                return (self.scripts.get(name) or self.scripts[base])(self, it, node, args)
+            if name.startswith("Self::") and base in self.inline:
+                return self.call(base, self_obj, args)
+        return NotImplemented
